@@ -18,9 +18,14 @@ def rs(rng, n, alphabet=ALNUM):
     return "".join(rng.choice(alphabet) for _ in range(n))
 
 
+# optional block ids the standard (TR-31:2018 / X9.143) gives a meaning to: to the properties they are ids like any other, with
+# any printable data - an implementation that treats some of them specially must still frame, wrap and unwrap them
+STANDARD_IDS = ["AL", "BI", "CT", "DA", "FL", "HM", "IK", "KC", "KP", "KS", "KV", "LB", "PK", "TC", "TS", "WP", "kc", "Kp", "ts", "10", "99", "00"]
+
+
 def rand_id(rng, used):
     while True:
-        i = rs(rng, 2)
+        i = rng.choice(STANDARD_IDS) if rng.random() < 0.35 else rs(rng, 2)
         if i.upper() != "PB" and i not in used:
             used.add(i)
             return i
